@@ -88,6 +88,13 @@ func (fc *fctx) kind(e ast.Expr) kind { return fc.t.kindOf(fc.typeOf(e)) }
 
 func lit(k kind, v constant.Value, n ast.Node, t *tr) string {
 	switch k {
+	case kJsType:
+		// syscall/js: TypeUndefined, TypeNull, TypeBoolean, TypeNumber, TypeString, TypeSymbol, TypeObject, TypeFunction
+		names := []string{"undefined", "null", "boolean", "number", "string", "symbol", "object", "function"}
+		if i, ok := constant.Int64Val(constant.ToInt(v)); ok && i >= 0 && int(i) < len(names) {
+			return "(s2b \"" + names[i] + "\")"
+		}
+		t.fail(n, "js.Type constant")
 	case kU8, kU32, kU64:
 		return constant.ToInt(v).ExactString() + "%N"
 	case kI64, kI32:
@@ -417,6 +424,13 @@ func (fc *fctx) compare(e *ast.BinaryExpr, kx kind) string {
 			return "(negb (beqb " + a + " " + b + "))"
 		}
 		t.fail(e, "string ordering")
+	case kx == kJsType:
+		switch e.Op {
+		case token.EQL:
+			return "(beqb " + a + " " + b + ")"
+		case token.NEQ:
+			return "(negb (beqb " + a + " " + b + "))"
+		}
 	case kx == kBool:
 		switch e.Op {
 		case token.EQL:
@@ -492,6 +506,12 @@ func (fc *fctx) index(e *ast.IndexExpr) string {
 	}
 	if fc.kind(e.X) == kStrList {
 		return fc.bind("idxS " + fc.expr(e.X) + " " + fc.toZ(e.Index))
+	}
+	if fc.kind(e.X) == kJsList {
+		return fc.bind("idxJ " + fc.expr(e.X) + " " + fc.toZ(e.Index))
+	}
+	if fc.kind(e.X) == kPairs {
+		return "(query_get " + fc.expr(e.Index) + " " + fc.expr(e.X) + ")" // a missing key reads as ""
 	}
 	if fc.kind(e.X) != kBytes {
 		t.fail(e, "index into %s", fc.typeOf(e.X))
